@@ -40,7 +40,10 @@ class LostAnchor(Exception):
     pass
 
 
-STRIP_ATTRS = re.compile(r"^#\s*\[\s*(inline|allow|must_use|instrument|expect|doc|derive|cfg_attr|track_caller|cold)\b")
+GEN_AUX = os.environ.get("VERIF_GEN_AUX", "/verif/out/aux")
+
+
+STRIP_ATTRS = re.compile(r"^#\s*\[\s*(inline|allow|must_use|instrument|expect|doc|derive|cfg_attr|track_caller|cold|serialize|serialize_crate|stable_hash|stable_hash_crate)\b")
 
 
 class Source:
@@ -48,7 +51,8 @@ class Source:
 
     def __init__(self, repo, rel):
         self.rel = rel
-        self.path = os.path.join(repo, rel)
+        # `@name` = a file produced by a pre-step of the check (e.g. macro expansion), under GEN_AUX
+        self.path = os.path.join(GEN_AUX, rel[1:]) if rel.startswith("@") else os.path.join(repo, rel)
         with open(self.path, encoding="utf-8") as f:
             self.src = f.read()
         self.toks = lex(self.src)
@@ -126,6 +130,14 @@ def apply_rewrites(text, log, ctx):
         text = apply_r10(text, log, ctx)
     if "R11" in ACTIVE_RULES:
         text = apply_r11_r12(text, log, ctx)
+    if "R13" in ACTIVE_RULES:
+        # R13: alpha-rename the method type parameter the derive macros use (__E/__D) to the name the trait
+        # declaration uses (E/D): Verus mis-translates inherited ensures when the names differ (internal error)
+        n1 = len(re.findall(r"\b__E\b", text)) + len(re.findall(r"\b__D\b", text))
+        if n1:
+            text = re.sub(r"\b__E\b", "E", text)
+            text = re.sub(r"\b__D\b", "D", text)
+            log.append({"rule": "R13", "in": ctx, "before": "__E / __D", "after": "E / D (%d occurrences)" % n1})
     toks = lex(text)
     ct = code_tokens(toks)
     edits = []  # (start,end,replacement,rule)
